@@ -177,6 +177,15 @@ func interactionPrograms() []string {
 			out = append(out, pre+"f = func(n) {"+strings.ReplaceAll(loop, "i = 3", "i = n")+"; r = catch(i); [(if r.err {\"E\"} else {r.value}), n]}; println(f(3))")
 		}
 	}
+	// (K) ill-typed uses of an integer parameter / loop variable, with the error TEXT printed (catch exposes it to programs);
+	//     code evaluated at run time that names the variable. Not for the reference semantics (wording): see c01 skip list.
+	for _, use := range []string{"R[0]", "R.x", "len(R)", "R()", "first(R)", "rest(R)", "R[0] = 1", "R.k = 1", "del(R.x)", "del(R[0])", "R[0:1]", "for x = R.y {}", `R + "a"`, `"a" + R`, "-R[0]",
+		"!R", "R < [1]", "[1, 2][R:\"a\"]", "{}[R][R]", "error(R)", "join(R)", "R(R)", "R.R", "keys(R)", "eval(\"R\")", "eval(\"R + 1\")", "eval(\"R = 5\"); R", "eval(\"++R\"); R", "unjson(\"R\")"} {
+		u := strings.ReplaceAll(use, "R", "n")
+		out = append(out, fmt.Sprintf(`f = func(n) {catch(%s)}; println("ERRTEXT", f(1))`, u))
+		out = append(out, fmt.Sprintf(`f = func(a, n) {for i = 2 {println("ERRTEXT", catch(%s))}}; f(0, 3)`, strings.ReplaceAll(use, "R", "i")))
+		out = append(out, fmt.Sprintf(`for n = 2 {println("ERRTEXT", catch(%s))}`, u))
+	}
 	// containers reached through references
 	for _, a := range []string{"x[0] = 5", `x.k = 5`, "del(x[0])", "x = x + 1", "x = x + x", "del(x)"} {
 		for _, init := range []string{"[1, 2, 3]", `{"k": 1, 0: 2}`, "1:12", `{1: 1, 2: 2, 3: 3, 4: 4, 5: 5}`} {
